@@ -10,6 +10,9 @@ func init() {
 			{"loop-memo", "a local initialised once inside a loop (if v == nil { v = ... }) and reused by later iterations is not derived from a variable the loop body changes between iterations (a key buffer rewritten per element, a cursor): later iterations would reuse what the first one saw", func(c *Ctx) { ruleLoopMemo(c, "pkg/core", "pkg/core/dao", "pkg/core/block") }},
 			{"enum-switch", "every switch over a module enumeration (named integer type with at least three constants) has a default clause or names every kind: no kind falls through a default-less switch silently", func(c *Ctx) { ruleEnumSwitch(c, "pkg/core", "pkg/core/dao", "pkg/core/block") }},
 			{"loop-accumulator", "a boolean that summarises a loop (some element needs X / all elements satisfy Y) and is read after it is accumulated monotonically - set to a constant, combined with its previous value, assigned under a test of itself, or followed by leaving the loop - never overwritten by the value computed for the current element only", func(c *Ctx) { ruleLoopAccumulator(c, "pkg/core", "pkg/core/dao", "pkg/core/block") }},
+			{"dead-update", "no struct-typed local is assigned and field-updated without ever being read, passed on or returned (a modified copy that is lost while the stale original goes on being used)", func(c *Ctx) { ruleDeadUpdate(c, "pkg/core", "pkg/core/dao", "pkg/core/block") }},
+			{"check-all-loop", "a loop that rejects on a property of each element with an error return is not left early with a break (the elements after it would escape the check)", func(c *Ctx) { ruleCheckAllLoop(c, "pkg/core", "pkg/core/dao", "pkg/core/block") }},
+			{"header-strictness", "verifyHeader rejects a timestamp equal to or earlier than the previous one (three orderings folded); the state-root module stores its local root and local height together", ruleHeaderStrictness},
 			{"commit-point", "no error exit of storeBlock is reachable after the PersistPrivate publish (one tabled exception), and the publish is gated by the MPT update and the storing goroutine's outcome", ruleCommitPoint},
 			{"accept-dominators", "every acceptance check (index, state-root setting, header link/verification, Merkle root, per-transaction verification; header chain checks and witness against the previous NextConsensus) gates storeBlock / HeaderHashes.addHeaders on every CFG path", ruleAcceptDominators},
 		},
@@ -36,6 +39,13 @@ func init() {
 			{"loop-accumulator", "a boolean that summarises a loop (some element needs X / all elements satisfy Y) and is read after it is accumulated monotonically - set to a constant, combined with its previous value, assigned under a test of itself, or followed by leaving the loop - never overwritten by the value computed for the current element only", func(c *Ctx) {
 				ruleLoopAccumulator(c, "pkg/core/interop", "pkg/core/interop/contract", "pkg/core/interop/storage", "pkg/core/native")
 			}},
+			{"dead-update", "no struct-typed local is assigned and field-updated without ever being read, passed on or returned (a modified copy that is lost while the stale original goes on being used)", func(c *Ctx) {
+				ruleDeadUpdate(c, "pkg/core/interop", "pkg/core/interop/contract", "pkg/core/interop/storage", "pkg/core/native")
+			}},
+			{"check-all-loop", "a loop that rejects on a property of each element with an error return is not left early with a break (the elements after it would escape the check)", func(c *Ctx) {
+				ruleCheckAllLoop(c, "pkg/core/interop", "pkg/core/interop/contract", "pkg/core/interop/storage", "pkg/core/native")
+			}},
+			{"transfer-log-on-halt", "storeBlock turns notifications into transfer-log entries only behind the VMState == Halt test", ruleTransferLogOnHalt},
 			{"tx-commit-guard", "the per-transaction DAO layer is persisted only on the non-fault branch, it is the private layer of a context created for that transaction, and OnPersist/PostPersist persist only after a successful Exec", ruleTxCommitGuard},
 			{"unload-rollback", "the unload callback of a wrapped call persists only on commit, cuts notifications back and restores the base DAO layer on every exit; baselines are captured before the callee is loaded; the VM passes commit = no uncaught exception; ContractHasTryBlock scans every handler of every frame", ruleUnloadRollback},
 			{"exec-confinement", "in the execution closure no store targets a package-level variable or a native contract object: everything an execution writes lives in a layer that is dropped on FAULT / caught exception", ruleExecConfinement},
@@ -57,6 +67,8 @@ func init() {
 			{"loop-memo", "a local initialised once inside a loop (if v == nil { v = ... }) and reused by later iterations is not derived from a variable the loop body changes between iterations (a key buffer rewritten per element, a cursor): later iterations would reuse what the first one saw", func(c *Ctx) { ruleLoopMemo(c, "pkg/core/mpt", "pkg/core/stateroot", "pkg/core") }},
 			{"enum-switch", "every switch over a module enumeration (named integer type with at least three constants) has a default clause or names every kind: no kind falls through a default-less switch silently", func(c *Ctx) { ruleEnumSwitch(c, "pkg/core/mpt", "pkg/core/stateroot", "pkg/core") }},
 			{"loop-accumulator", "a boolean that summarises a loop (some element needs X / all elements satisfy Y) and is read after it is accumulated monotonically - set to a constant, combined with its previous value, assigned under a test of itself, or followed by leaving the loop - never overwritten by the value computed for the current element only", func(c *Ctx) { ruleLoopAccumulator(c, "pkg/core/mpt", "pkg/core/stateroot", "pkg/core") }},
+			{"dead-update", "no struct-typed local is assigned and field-updated without ever being read, passed on or returned (a modified copy that is lost while the stale original goes on being used)", func(c *Ctx) { ruleDeadUpdate(c, "pkg/core/mpt", "pkg/core/stateroot", "pkg/core") }},
+			{"check-all-loop", "a loop that rejects on a property of each element with an error return is not left early with a break (the elements after it would escape the check)", func(c *Ctx) { ruleCheckAllLoop(c, "pkg/core/mpt", "pkg/core/stateroot", "pkg/core") }},
 			{"proof-key", "VerifyProof walks from NewHashNode(root) over a store of its own in strict mode, and stores every proof element under the double-SHA256 of that very element", ruleProofKey},
 			{"historic-root", "the historic VM's trie store is rooted at GetStateRoot(b.Index-1) of the block it executes in, over a private cache layer, and refuses garbage-collected heights", ruleHistoricRoot},
 			{"mpt-reader", "Trie methods read node records only through the mode-aware getFromStore (a retained root keeps every key contract storage holds, in every trie mode)", ruleMPTReader},
@@ -74,8 +86,11 @@ func init() {
 			{"loop-memo", "a local initialised once inside a loop (if v == nil { v = ... }) and reused by later iterations is not derived from a variable the loop body changes between iterations (a key buffer rewritten per element, a cursor): later iterations would reuse what the first one saw", func(c *Ctx) { ruleLoopMemo(c, "pkg/core", "pkg/core/dao", "pkg/core/storage") }},
 			{"enum-switch", "every switch over a module enumeration (named integer type with at least three constants) has a default clause or names every kind: no kind falls through a default-less switch silently", func(c *Ctx) { ruleEnumSwitch(c, "pkg/core", "pkg/core/dao", "pkg/core/storage") }},
 			{"loop-accumulator", "a boolean that summarises a loop (some element needs X / all elements satisfy Y) and is read after it is accumulated monotonically - set to a constant, combined with its previous value, assigned under a test of itself, or followed by leaving the loop - never overwritten by the value computed for the current element only", func(c *Ctx) { ruleLoopAccumulator(c, "pkg/core", "pkg/core/dao", "pkg/core/storage") }},
+			{"dead-update", "no struct-typed local is assigned and field-updated without ever being read, passed on or returned (a modified copy that is lost while the stale original goes on being used)", func(c *Ctx) { ruleDeadUpdate(c, "pkg/core", "pkg/core/dao", "pkg/core/storage") }},
+			{"check-all-loop", "a loop that rejects on a property of each element with an error return is not left early with a break (the elements after it would escape the check)", func(c *Ctx) { ruleCheckAllLoop(c, "pkg/core", "pkg/core/dao", "pkg/core/storage") }},
 			{"inactive-after-jump", "the state-sync module sets its stage to inactive only after the jump callback ran on the same path, or at the tabled exits where the ledger needs no jump (a restart between the last synchronised block and the jump is not one of them)", ruleInactiveAfterJump},
 			{"gc-keeps-startup-page", "the on-disk collector of header-hash pages bounds itself by the current header height, so that the last complete page, which HeaderHashes.init loads unconditionally, is never removed", ruleGCKeepsStartupPage},
+			{"gc-from-persisted", "every collector tryRunGC starts gets a target derived from the persisted height, never from the in-memory block height", ruleGCFromPersisted},
 			{"stage-machine", "reset and jump are well-formed stage machines: unknown stage is an error; each stage ends by recording the label of the next clause as its last write and persists that layer before falling through; no value captured before the switch from a field a stage changes is used after that stage; the tail removes the marker; start-up resumes from it", ruleStageMachine},
 			{"cache-init", "a node reopened after a crash rebuilds every native cache field from storage and raises the in-memory dirty flags that have no storage record (votesChanged), so the blocks that follow give the same state roots as on a node that never stopped", ruleCacheInit},
 			{"resume-path", "no stage deletes data that Blockchain.init reads before it dispatches on the stage marker, and in-memory module state established inside one stage clause is also established on the common path (so a run resumed from a later stage has it)", ruleResumePath},
@@ -94,6 +109,8 @@ func init() {
 			{"loop-memo", "a local initialised once inside a loop (if v == nil { v = ... }) and reused by later iterations is not derived from a variable the loop body changes between iterations (a key buffer rewritten per element, a cursor): later iterations would reuse what the first one saw", func(c *Ctx) { ruleLoopMemo(c, "pkg/core/statesync", "pkg/network/bqueue") }},
 			{"enum-switch", "every switch over a module enumeration (named integer type with at least three constants) has a default clause or names every kind: no kind falls through a default-less switch silently", func(c *Ctx) { ruleEnumSwitch(c, "pkg/core/statesync", "pkg/network/bqueue") }},
 			{"loop-accumulator", "a boolean that summarises a loop (some element needs X / all elements satisfy Y) and is read after it is accumulated monotonically - set to a constant, combined with its previous value, assigned under a test of itself, or followed by leaving the loop - never overwritten by the value computed for the current element only", func(c *Ctx) { ruleLoopAccumulator(c, "pkg/core/statesync", "pkg/network/bqueue") }},
+			{"dead-update", "no struct-typed local is assigned and field-updated without ever being read, passed on or returned (a modified copy that is lost while the stale original goes on being used)", func(c *Ctx) { ruleDeadUpdate(c, "pkg/core/statesync", "pkg/network/bqueue") }},
+			{"check-all-loop", "a loop that rejects on a property of each element with an error return is not left early with a break (the elements after it would escape the check)", func(c *Ctx) { ruleCheckAllLoop(c, "pkg/core/statesync", "pkg/network/bqueue") }},
 			{"lock-pairing", "in pkg/network/bqueue and pkg/core/statesync every mutex acquired is released on every exit (defer-aware, boolean-correlated; the hand-unlocked Blocking branch of Queue.Put included)", func(c *Ctx) { lockPairingPkgs(c, []string{"pkg/network/bqueue", "pkg/core/statesync"}, nil, 10) }},
 			{"lockset", "the block queue's ring/len/lastQ and the state-sync module's stage, sync point, heights, tries and node pool are read and written only while the owning mutex is held (write lock for writes), in methods every call site of which holds it, or in the tabled traversal callback", ruleLocksetSync},
 			{"stage-machine", "the state jump that ends a state synchronisation is a well-formed stage machine: markers name the next clause and are persisted with the stage, and everything the jump writes to the store is in or before the batch that removes the marker (a restart at any point resumes or finds the jump complete)", ruleStageMachine},
@@ -113,6 +130,8 @@ func init() {
 			{"loop-memo", "a local initialised once inside a loop (if v == nil { v = ... }) and reused by later iterations is not derived from a variable the loop body changes between iterations (a key buffer rewritten per element, a cursor): later iterations would reuse what the first one saw", func(c *Ctx) { ruleLoopMemo(c, "pkg/vm", "pkg/vm/stackitem") }},
 			{"enum-switch", "every switch over a module enumeration (named integer type with at least three constants) has a default clause or names every kind: no kind falls through a default-less switch silently", func(c *Ctx) { ruleEnumSwitch(c, "pkg/vm", "pkg/vm/stackitem") }},
 			{"loop-accumulator", "a boolean that summarises a loop (some element needs X / all elements satisfy Y) and is read after it is accumulated monotonically - set to a constant, combined with its previous value, assigned under a test of itself, or followed by leaving the loop - never overwritten by the value computed for the current element only", func(c *Ctx) { ruleLoopAccumulator(c, "pkg/vm", "pkg/vm/stackitem") }},
+			{"dead-update", "no struct-typed local is assigned and field-updated without ever being read, passed on or returned (a modified copy that is lost while the stale original goes on being used)", func(c *Ctx) { ruleDeadUpdate(c, "pkg/vm", "pkg/vm/stackitem") }},
+			{"check-all-loop", "a loop that rejects on a property of each element with an error return is not left early with a break (the elements after it would escape the check)", func(c *Ctx) { ruleCheckAllLoop(c, "pkg/vm", "pkg/vm/stackitem") }},
 			{"opcode-tables", "every Opcode constant is valid in the decoder table, dispatched by vm.execute (arm or PUSHINT range test, faulting default), priced in fee.coefficients, and operand usage agrees between decoder and dispatcher", ruleOpcodeTables},
 			{"panic-scope", "execute starts by deferring the recover + MaxStackSize closure, is entered only from step/StepInto, and nothing reachable from Run/Step* outside it panics explicitly", rulePanicScope},
 			{"gas-before-dispatch", "on the priced branch the price is fetched, added and compared with the limit (faulting) before any instruction touches the stack", ruleGasBeforeDispatch},
@@ -133,6 +152,8 @@ func init() {
 			{"loop-memo", "a local initialised once inside a loop (if v == nil { v = ... }) and reused by later iterations is not derived from a variable the loop body changes between iterations (a key buffer rewritten per element, a cursor): later iterations would reuse what the first one saw", func(c *Ctx) { ruleLoopMemo(c, "pkg/vm", "pkg/vm/stackitem") }},
 			{"enum-switch", "every switch over a module enumeration (named integer type with at least three constants) has a default clause or names every kind: no kind falls through a default-less switch silently", func(c *Ctx) { ruleEnumSwitch(c, "pkg/vm", "pkg/vm/stackitem") }},
 			{"loop-accumulator", "a boolean that summarises a loop (some element needs X / all elements satisfy Y) and is read after it is accumulated monotonically - set to a constant, combined with its previous value, assigned under a test of itself, or followed by leaving the loop - never overwritten by the value computed for the current element only", func(c *Ctx) { ruleLoopAccumulator(c, "pkg/vm", "pkg/vm/stackitem") }},
+			{"dead-update", "no struct-typed local is assigned and field-updated without ever being read, passed on or returned (a modified copy that is lost while the stale original goes on being used)", func(c *Ctx) { ruleDeadUpdate(c, "pkg/vm", "pkg/vm/stackitem") }},
+			{"check-all-loop", "a loop that rejects on a property of each element with an error return is not left early with a break (the elements after it would escape the check)", func(c *Ctx) { ruleCheckAllLoop(c, "pkg/vm", "pkg/vm/stackitem") }},
 			{"opcode-tables", "every Opcode constant is valid in the decoder table, dispatched by vm.execute (arm or PUSHINT range test, faulting default), priced in fee.coefficients, and operand usage agrees between decoder and dispatcher", ruleOpcodeTables},
 			{"bigint-ctor", "conversions to *stackitem.BigInteger exist only in package stackitem, each after CheckIntegerSize or from a <=64-bit source (every integer result passes the 256-bit range check)", ruleBigintCtor},
 			{"byte-moves", "bytes are moved between buffers that may be the same stack item only by the builtin copy (overlap-safe), never by an element loop", ruleByteMoves},
@@ -162,6 +183,12 @@ func init() {
 			{"loop-accumulator", "a boolean that summarises a loop (some element needs X / all elements satisfy Y) and is read after it is accumulated monotonically - set to a constant, combined with its previous value, assigned under a test of itself, or followed by leaving the loop - never overwritten by the value computed for the current element only", func(c *Ctx) {
 				ruleLoopAccumulator(c, "pkg/smartcontract/manifest", "pkg/core/interop/contract", "pkg/core/interop")
 			}},
+			{"dead-update", "no struct-typed local is assigned and field-updated without ever being read, passed on or returned (a modified copy that is lost while the stale original goes on being used)", func(c *Ctx) {
+				ruleDeadUpdate(c, "pkg/smartcontract/manifest", "pkg/core/interop/contract", "pkg/core/interop")
+			}},
+			{"check-all-loop", "a loop that rejects on a property of each element with an error return is not left early with a break (the elements after it would escape the check)", func(c *Ctx) {
+				ruleCheckAllLoop(c, "pkg/smartcontract/manifest", "pkg/core/interop/contract", "pkg/core/interop")
+			}},
 			{"flags-effects", "for every system call and native-method registration the effects of the handler over the module-restricted call graph (contract-storage write, notification, script load) are covered by the declared required flags (legacy superseded registrations and the payment callback tabled)", ruleFlagsEffects},
 			{"native-flag-check", "native.Call and Context.SyscallHandler invoke the handler only behind the Has(RequiredFlags) test; the historical relaxation is confined to pre-Aspidochelone Management deploy/update", ruleFlagChecks},
 			{"call-guards", "safe methods are called with write/notify stripped, a deployed caller passes CanCall before a non-safe call, flags given to the loaders are the intersection with the current context's flags, and no other loader site exists in the execution closure", ruleCallGuards},
@@ -179,6 +206,8 @@ func init() {
 			{"loop-memo", "a local initialised once inside a loop (if v == nil { v = ... }) and reused by later iterations is not derived from a variable the loop body changes between iterations (a key buffer rewritten per element, a cursor): later iterations would reuse what the first one saw", func(c *Ctx) { ruleLoopMemo(c, "pkg/core/interop/runtime", "pkg/core/transaction") }},
 			{"enum-switch", "every switch over a module enumeration (named integer type with at least three constants) has a default clause or names every kind: no kind falls through a default-less switch silently", func(c *Ctx) { ruleEnumSwitch(c, "pkg/core/interop/runtime", "pkg/core/transaction") }},
 			{"loop-accumulator", "a boolean that summarises a loop (some element needs X / all elements satisfy Y) and is read after it is accumulated monotonically - set to a constant, combined with its previous value, assigned under a test of itself, or followed by leaving the loop - never overwritten by the value computed for the current element only", func(c *Ctx) { ruleLoopAccumulator(c, "pkg/core/interop/runtime", "pkg/core/transaction") }},
+			{"dead-update", "no struct-typed local is assigned and field-updated without ever being read, passed on or returned (a modified copy that is lost while the stale original goes on being used)", func(c *Ctx) { ruleDeadUpdate(c, "pkg/core/interop/runtime", "pkg/core/transaction") }},
+			{"check-all-loop", "a loop that rejects on a property of each element with an error return is not left early with a break (the elements after it would escape the check)", func(c *Ctx) { ruleCheckAllLoop(c, "pkg/core/interop/runtime", "pkg/core/transaction") }},
 			{"cond-tables", "each witness-condition kind is reported by exactly one type; the binary, stack-item and JSON decoders have an arm for every kind constructing that type, reject unknown kinds, and recurse with a strictly decreasing, tested depth", ruleCondTables},
 			{"cond-context", "each condition's Match consults exactly the match-context method its kind prescribes; the runtime adapters do not swap calling/current; every allowing exit of checkScope is gated by the account match and by the context test of its scope", ruleCondContext},
 		},
@@ -193,6 +222,9 @@ func init() {
 			{"loop-memo", "a local initialised once inside a loop (if v == nil { v = ... }) and reused by later iterations is not derived from a variable the loop body changes between iterations (a key buffer rewritten per element, a cursor): later iterations would reuse what the first one saw", func(c *Ctx) { ruleLoopMemo(c, "pkg/core/storage", "pkg/core/dao") }},
 			{"enum-switch", "every switch over a module enumeration (named integer type with at least three constants) has a default clause or names every kind: no kind falls through a default-less switch silently", func(c *Ctx) { ruleEnumSwitch(c, "pkg/core/storage", "pkg/core/dao") }},
 			{"loop-accumulator", "a boolean that summarises a loop (some element needs X / all elements satisfy Y) and is read after it is accumulated monotonically - set to a constant, combined with its previous value, assigned under a test of itself, or followed by leaving the loop - never overwritten by the value computed for the current element only", func(c *Ctx) { ruleLoopAccumulator(c, "pkg/core/storage", "pkg/core/dao") }},
+			{"dead-update", "no struct-typed local is assigned and field-updated without ever being read, passed on or returned (a modified copy that is lost while the stale original goes on being used)", func(c *Ctx) { ruleDeadUpdate(c, "pkg/core/storage", "pkg/core/dao") }},
+			{"check-all-loop", "a loop that rejects on a property of each element with an error return is not left early with a break (the elements after it would escape the check)", func(c *Ctx) { ruleCheckAllLoop(c, "pkg/core/storage", "pkg/core/dao") }},
+			{"limit-exclusive", "a backend scan loop that admits a key equal to the range limit (the first key after the prefix) also requires the prefix", ruleLimitExclusive},
 			{"lock-pairing", "in pkg/core/storage every mutex acquired is released on every exit (conditional wrappers analysed for shared stores; the isSync-correlated unlock/relock of persist included)", func(c *Ctx) { lockPairingPkgs(c, []string{stPkg}, storageAssume, 10) }},
 			{"lockset", "every access of mem/stor/ps of a shared MemoryStore/MemCachedStore happens under the store's mutex (write lock for writes) or in a caller-holds-lock function whose call sites hold it; a function that reads a cache map and ps for one answer does so in one critical section; seek gets matching lockers", ruleStoreLockset},
 			{"swap-order", "persist replaces mem/stor/ps only under the write lock inside the plock bracket, installs the tempstore before the lower write, restores ps only after it returned, and merges concurrent writes into both old maps on failure", ruleSwapOrder},
@@ -214,6 +246,9 @@ func init() {
 			{"loop-memo", "a local initialised once inside a loop (if v == nil { v = ... }) and reused by later iterations is not derived from a variable the loop body changes between iterations (a key buffer rewritten per element, a cursor): later iterations would reuse what the first one saw", func(c *Ctx) { ruleLoopMemo(c, "pkg/core/native", "pkg/core/state") }},
 			{"enum-switch", "every switch over a module enumeration (named integer type with at least three constants) has a default clause or names every kind: no kind falls through a default-less switch silently", func(c *Ctx) { ruleEnumSwitch(c, "pkg/core/native", "pkg/core/state") }},
 			{"loop-accumulator", "a boolean that summarises a loop (some element needs X / all elements satisfy Y) and is read after it is accumulated monotonically - set to a constant, combined with its previous value, assigned under a test of itself, or followed by leaving the loop - never overwritten by the value computed for the current element only", func(c *Ctx) { ruleLoopAccumulator(c, "pkg/core/native", "pkg/core/state") }},
+			{"dead-update", "no struct-typed local is assigned and field-updated without ever being read, passed on or returned (a modified copy that is lost while the stale original goes on being used)", func(c *Ctx) { ruleDeadUpdate(c, "pkg/core/native", "pkg/core/state") }},
+			{"check-all-loop", "a loop that rejects on a property of each element with an error return is not left early with a break (the elements after it would escape the check)", func(c *Ctx) { ruleCheckAllLoop(c, "pkg/core/native", "pkg/core/state") }},
+			{"local-option-outcome", "nothing fails (error return, panic) inside a branch taken only when the node-local SaveInvocations option is on", ruleLocalOptionOutcome},
 			{"cache-ro", "no write (field, element, delete/clear/copy, or through a parameter-mutating callee) through a native cache obtained with GetROCache, on any path (isCacheRW idiom handled by boolean correlation)", ruleCacheRO},
 			{"det-sources", "no wall clock, random source, environment or scheduler introspection is read in the closure of block processing except for values that flow only into logging/metrics", ruleDetSources},
 			{"det-maprange", "every map iteration in the closure of block processing is order-insensitive (keyed updates, or collected then sorted) or tabled with a reason", ruleDetMapRange},
@@ -240,6 +275,8 @@ func init() {
 			{"loop-memo", "a local initialised once inside a loop (if v == nil { v = ... }) and reused by later iterations is not derived from a variable the loop body changes between iterations (a key buffer rewritten per element, a cursor): later iterations would reuse what the first one saw", func(c *Ctx) { ruleLoopMemo(c, "pkg/core/mpt") }},
 			{"enum-switch", "every switch over a module enumeration (named integer type with at least three constants) has a default clause or names every kind: no kind falls through a default-less switch silently", func(c *Ctx) { ruleEnumSwitch(c, "pkg/core/mpt") }},
 			{"loop-accumulator", "a boolean that summarises a loop (some element needs X / all elements satisfy Y) and is read after it is accumulated monotonically - set to a constant, combined with its previous value, assigned under a test of itself, or followed by leaving the loop - never overwritten by the value computed for the current element only", func(c *Ctx) { ruleLoopAccumulator(c, "pkg/core/mpt") }},
+			{"dead-update", "no struct-typed local is assigned and field-updated without ever being read, passed on or returned (a modified copy that is lost while the stale original goes on being used)", func(c *Ctx) { ruleDeadUpdate(c, "pkg/core/mpt") }},
+			{"check-all-loop", "a loop that rejects on a property of each element with an error return is not left early with a break (the elements after it would escape the check)", func(c *Ctx) { ruleCheckAllLoop(c, "pkg/core/mpt") }},
 			{"proof-key", "VerifyProof walks from NewHashNode(root) over a store of its own in strict mode, and stores every proof element under the double-SHA256 of that very element", ruleProofKey},
 			{"node-switch", "type switches dispatching over trie node kinds cover all five kinds or fail in their default arm", ruleNodeSwitch},
 			{"append-alias", "no append(node.field, ...) in package mpt whose result leaves the field (it would write into the spare capacity a node key shares with the path/batch array it was sliced from)", ruleAppendAlias},
@@ -258,6 +295,8 @@ func init() {
 			{"loop-memo", "a local initialised once inside a loop (if v == nil { v = ... }) and reused by later iterations is not derived from a variable the loop body changes between iterations (a key buffer rewritten per element, a cursor): later iterations would reuse what the first one saw", func(c *Ctx) { ruleLoopMemo(c, "pkg/core/mpt", "pkg/core/stateroot") }},
 			{"enum-switch", "every switch over a module enumeration (named integer type with at least three constants) has a default clause or names every kind: no kind falls through a default-less switch silently", func(c *Ctx) { ruleEnumSwitch(c, "pkg/core/mpt", "pkg/core/stateroot") }},
 			{"loop-accumulator", "a boolean that summarises a loop (some element needs X / all elements satisfy Y) and is read after it is accumulated monotonically - set to a constant, combined with its previous value, assigned under a test of itself, or followed by leaving the loop - never overwritten by the value computed for the current element only", func(c *Ctx) { ruleLoopAccumulator(c, "pkg/core/mpt", "pkg/core/stateroot") }},
+			{"dead-update", "no struct-typed local is assigned and field-updated without ever being read, passed on or returned (a modified copy that is lost while the stale original goes on being used)", func(c *Ctx) { ruleDeadUpdate(c, "pkg/core/mpt", "pkg/core/stateroot") }},
+			{"check-all-loop", "a loop that rejects on a property of each element with an error return is not left early with a break (the elements after it would escape the check)", func(c *Ctx) { ruleCheckAllLoop(c, "pkg/core/mpt", "pkg/core/stateroot") }},
 			{"mpt-reader", "Trie methods read node records only through the mode-aware getFromStore, which reports inactive records as (nil, not found); the reference-count suffix is written and read in one format", ruleMPTReader},
 			{"store-value-immutable", "Trie methods never modify in place a slice obtained from the store (counter updates work on a copy), so a trie computed over a private layer and dropped leaves stored records untouched", ruleStoreValueImmutable},
 			{"rc-loaded", "a node a Trie method loads from the store while restructuring is either handed on / embedded / returned as a whole or released with removeRef on every path that returns normally (a replaced node is never left counted)", ruleRCLoaded},
@@ -275,6 +314,9 @@ func init() {
 			{"loop-memo", "a local initialised once inside a loop (if v == nil { v = ... }) and reused by later iterations is not derived from a variable the loop body changes between iterations (a key buffer rewritten per element, a cursor): later iterations would reuse what the first one saw", func(c *Ctx) { ruleLoopMemo(c, "pkg/core/native", "pkg/core/state") }},
 			{"enum-switch", "every switch over a module enumeration (named integer type with at least three constants) has a default clause or names every kind: no kind falls through a default-less switch silently", func(c *Ctx) { ruleEnumSwitch(c, "pkg/core/native", "pkg/core/state") }},
 			{"loop-accumulator", "a boolean that summarises a loop (some element needs X / all elements satisfy Y) and is read after it is accumulated monotonically - set to a constant, combined with its previous value, assigned under a test of itself, or followed by leaving the loop - never overwritten by the value computed for the current element only", func(c *Ctx) { ruleLoopAccumulator(c, "pkg/core/native", "pkg/core/state") }},
+			{"dead-update", "no struct-typed local is assigned and field-updated without ever being read, passed on or returned (a modified copy that is lost while the stale original goes on being used)", func(c *Ctx) { ruleDeadUpdate(c, "pkg/core/native", "pkg/core/state") }},
+			{"check-all-loop", "a loop that rejects on a property of each element with an error return is not left early with a break (the elements after it would escape the check)", func(c *Ctx) { ruleCheckAllLoop(c, "pkg/core/native", "pkg/core/state") }},
+			{"vote-deposit-flow", "a non-zero balance change of a voting account passes modifyVoterTurnout on every successful path; every path of Notary.onPayment to the stored deposit adds the received amount", ruleVoteAndDepositFlow},
 			{"token-writers", "account balances, total supply, voters count, candidate records and notary deposits are written only by the tabled functions that keep them consistent; saveTotalSupply runs only inside addTokens; a stored candidate record is never replaced by a blank one", ruleTokenWriters},
 			{"amount-immutable", "no native function leaves a *big.Int parameter modified: in-place negation is flipped back on every path, no other mutator has a parameter as receiver (the amount of an already emitted Transfer event is the same integer)", ruleAmountImmutable},
 		},
@@ -289,6 +331,8 @@ func init() {
 			{"loop-memo", "a local initialised once inside a loop (if v == nil { v = ... }) and reused by later iterations is not derived from a variable the loop body changes between iterations (a key buffer rewritten per element, a cursor): later iterations would reuse what the first one saw", func(c *Ctx) { ruleLoopMemo(c, "pkg/consensus") }},
 			{"enum-switch", "every switch over a module enumeration (named integer type with at least three constants) has a default clause or names every kind: no kind falls through a default-less switch silently", func(c *Ctx) { ruleEnumSwitch(c, "pkg/consensus") }},
 			{"loop-accumulator", "a boolean that summarises a loop (some element needs X / all elements satisfy Y) and is read after it is accumulated monotonically - set to a constant, combined with its previous value, assigned under a test of itself, or followed by leaving the loop - never overwritten by the value computed for the current element only", func(c *Ctx) { ruleLoopAccumulator(c, "pkg/consensus") }},
+			{"dead-update", "no struct-typed local is assigned and field-updated without ever being read, passed on or returned (a modified copy that is lost while the stale original goes on being used)", func(c *Ctx) { ruleDeadUpdate(c, "pkg/consensus") }},
+			{"check-all-loop", "a loop that rejects on a property of each element with an error return is not left early with a break (the elements after it would escape the check)", func(c *Ctx) { ruleCheckAllLoop(c, "pkg/consensus") }},
 			{"codec-guards", "where the encoder and the decoder of one consensus message both guard wire operations by comparing the same field with constants (the change-view reason), the two sets of constants agree", ruleCodecGuards},
 			{"decode-context", "a decoder of a consensus message whose wire shape depends on the state-root flag hands the flag on to every nested context-dependent value it creates", ruleDecodeContext},
 			{"proposal-dominators", "verifyBlock accepts only behind the height/timestamp/size/system-fee checks and per-transaction verification; verifyRequest only behind prev-hash/version/state-root/count checks; the block witness takes commits of the current view only, in validator order; the proposed transaction set is cut after (not before) adding the transaction that overflows a limit", ruleProposalDominators},
@@ -317,6 +361,13 @@ func init() {
 			{"loop-accumulator", "a boolean that summarises a loop (some element needs X / all elements satisfy Y) and is read after it is accumulated monotonically - set to a constant, combined with its previous value, assigned under a test of itself, or followed by leaving the loop - never overwritten by the value computed for the current element only", func(c *Ctx) {
 				ruleLoopAccumulator(c, "pkg/io", "pkg/core/transaction", "pkg/core/block", "pkg/network/payload", "pkg/vm/stackitem", "pkg/core/state")
 			}},
+			{"dead-update", "no struct-typed local is assigned and field-updated without ever being read, passed on or returned (a modified copy that is lost while the stale original goes on being used)", func(c *Ctx) {
+				ruleDeadUpdate(c, "pkg/io", "pkg/core/transaction", "pkg/core/block", "pkg/network/payload", "pkg/vm/stackitem", "pkg/core/state")
+			}},
+			{"check-all-loop", "a loop that rejects on a property of each element with an error return is not left early with a break (the elements after it would escape the check)", func(c *Ctx) {
+				ruleCheckAllLoop(c, "pkg/io", "pkg/core/transaction", "pkg/core/block", "pkg/network/payload", "pkg/vm/stackitem", "pkg/core/state")
+			}},
+			{"attr-budget", "the transaction decoder limits the attribute count by MaxAttributes less the signers count", ruleAttrBudget},
 			{"hash-canonical", "every cached identity (hash/size of transaction, header, extensible, notary request) is computed from the node's own encoding, or from received bytes only if the length decoder rejects non-minimal encodings", ruleHashCanonical},
 			{"codec-symmetry", "for every type with EncodeBinary and DecodeBinary the sequences of wire primitives on the writer/reader agree token by token when both are straight-line; otherwise the sets of primitive kinds agree", ruleCodecSymmetry},
 			{"codec-guards", "where the encoder and the decoder of one type both guard wire operations by comparing the same field with constants, the two sets of constants agree", ruleCodecGuards},
@@ -350,6 +401,13 @@ func init() {
 			{"loop-accumulator", "a boolean that summarises a loop (some element needs X / all elements satisfy Y) and is read after it is accumulated monotonically - set to a constant, combined with its previous value, assigned under a test of itself, or followed by leaving the loop - never overwritten by the value computed for the current element only", func(c *Ctx) {
 				ruleLoopAccumulator(c, "pkg/core", "pkg/core/mempool", "pkg/core/transaction", "pkg/core/fee")
 			}},
+			{"dead-update", "no struct-typed local is assigned and field-updated without ever being read, passed on or returned (a modified copy that is lost while the stale original goes on being used)", func(c *Ctx) {
+				ruleDeadUpdate(c, "pkg/core", "pkg/core/mempool", "pkg/core/transaction", "pkg/core/fee")
+			}},
+			{"check-all-loop", "a loop that rejects on a property of each element with an error return is not left early with a break (the elements after it would escape the check)", func(c *Ctx) {
+				ruleCheckAllLoop(c, "pkg/core", "pkg/core/mempool", "pkg/core/transaction", "pkg/core/fee")
+			}},
+			{"attr-budget", "the transaction decoder limits the attribute count by MaxAttributes less the signers count (the decoder is the only place that enforces the combined limit)", ruleAttrBudget},
 			{"attr-exhaustive", "every attribute kind has an arm in the binary decoder, the encoder and verifyTxAttributes; decoder and encoder reject unknown kinds", ruleAttrExhaustive},
 			{"hash-canonical", "a cached identity (hash/size) is computed from the node's own encoding, or from received bytes only if the length decoder rejects non-minimal encodings (the same content must be the same transaction in every accepted encoding)", ruleHashCanonical},
 			{"commit-point", "the main mempool is refreshed against the new ledger - after the block was published and the height advanced - so that a transaction expiring with the block does not stay pooled (blocks proposed from the pool are accepted by the ledger)", ruleCommitPoint},
@@ -368,11 +426,14 @@ func init() {
 			{"loop-memo", "a local initialised once inside a loop (if v == nil { v = ... }) and reused by later iterations is not derived from a variable the loop body changes between iterations (a key buffer rewritten per element, a cursor): later iterations would reuse what the first one saw", func(c *Ctx) { ruleLoopMemo(c, "pkg/core/mempool") }},
 			{"enum-switch", "every switch over a module enumeration (named integer type with at least three constants) has a default clause or names every kind: no kind falls through a default-less switch silently", func(c *Ctx) { ruleEnumSwitch(c, "pkg/core/mempool") }},
 			{"loop-accumulator", "a boolean that summarises a loop (some element needs X / all elements satisfy Y) and is read after it is accumulated monotonically - set to a constant, combined with its previous value, assigned under a test of itself, or followed by leaving the loop - never overwritten by the value computed for the current element only", func(c *Ctx) { ruleLoopAccumulator(c, "pkg/core/mempool") }},
+			{"dead-update", "no struct-typed local is assigned and field-updated without ever being read, passed on or returned (a modified copy that is lost while the stale original goes on being used)", func(c *Ctx) { ruleDeadUpdate(c, "pkg/core/mempool") }},
+			{"check-all-loop", "a loop that rejects on a property of each element with an error return is not left early with a break (the elements after it would escape the check)", func(c *Ctx) { ruleCheckAllLoop(c, "pkg/core/mempool") }},
 			{"lock-pairing", "in pkg/core/mempool every mutex acquired is released on every exit of every function (defer-aware, boolean-correlated), never released unheld, never re-acquired while held", func(c *Ctx) { lockPairingPkgs(c, []string{"pkg/core/mempool"}, nil, 10) }},
 			{"add-failure-atomic", "no write to verifiedMap/verifiedTxes/fees/conflicts/oracleResp (direct or through a Pool method) lies on a CFG path to a non-nil error return of Pool.Add or checkTxConflicts (tabled: removal before the infeasible capacity exit; balance-cache fill)", ruleAddFailureAtomic},
 			{"index-comaintenance", "every removal/insertion path of the pool updates all five indexes, and fee credits in conflict resolution are gated by payer equality", ruleIndexComaintenance},
 			{"single-comparator", "the priority fields of two transactions (network fee, fee per byte) are compared only inside item.Compare (one tabled exception: the oracle-response replacement rule): no second, partial order decides a placement or an eviction", ruleSingleComparator},
 			{"index-fresh", "a position computed on verifiedTxes (sort.Search/len/range index) is never used after a call that may restructure the slice", ruleIndexFresh},
+			{"comparator-keys", "the pool comparator compares Transaction.FeePerByte of both sides, then NetworkFee of both sides", ruleComparatorKeys},
 			{"tautology", "no comparison of a side-effect-free expression with itself anywhere in the module (==, Equals, Cmp, bytes.Equal, ...)", ruleTautology},
 		},
 		NotCovered: "ordering by priority, capacity arithmetic, eviction of the lowest entry only, total-order properties of the comparison",
